@@ -75,6 +75,19 @@ func (vc *VC) pos(p token.Pos) string {
 	return fmt.Sprintf("%s:%d", strings.TrimPrefix(ps.Filename, vc.eng.repo+"/"), ps.Line)
 }
 
+// instKey: normalised key plus "@" and the type arguments, for contracts of particular generic instances.
+func instKey(fn *ssa.Function) string {
+	ta := fn.TypeArgs()
+	if len(ta) == 0 {
+		return ""
+	}
+	var parts []string
+	for _, t := range ta {
+		parts = append(parts, strings.ReplaceAll(types.TypeString(t, func(p *types.Package) string { return p.Name() }), " ", ""))
+	}
+	return fnKey(fn) + "@" + strings.Join(parts, ",")
+}
+
 func fnKey(fn *ssa.Function) string {
 	if o := fn.Origin(); o != nil {
 		return normKey(o.String())
@@ -1005,7 +1018,7 @@ func (fr *frame) execConvert(x *ssa.Convert, v Val, st *State, alive string, saf
 		return v
 	case isStringType(to):
 		if _, ok := from.Underlying().(*types.Slice); ok {
-			return Val{t: "(bytes2str " + vc.sliceContent(st, v.t, "Int") + " (slen " + v.t + "))"}
+			return Val{t: "(bytes2str " + vc.bytesVal(st, v.t) + ")"}
 		}
 		if isIntType(from) {
 			return vc.havocVal(to, x.Name(), "")
@@ -1020,7 +1033,7 @@ func (fr *frame) execConvert(x *ssa.Convert, v Val, st *State, alive string, saf
 			vc.logWrite(key, ref)
 			vc.heapSet(st, key, hs, "(store "+h+" "+ref+" (str2bytes "+v.t+"))")
 			res := "(mkSlice " + ref + " 0 (str.len " + v.t + "))"
-			vc.assume("true", "(= (bytes2str (str2bytes "+v.t+") (str.len "+v.t+")) "+v.t+")")
+			vc.assume("true", "(= (bytes2str (bytesval (str2bytes "+v.t+") 0 (str.len "+v.t+"))) "+v.t+")")
 			return Val{t: res}
 		}
 	}
@@ -1039,6 +1052,11 @@ func (fr *frame) execConvert(x *ssa.Convert, v Val, st *State, alive string, saf
 	}
 	vc.note("conversion %s -> %s havocked at %s", from, to, vc.pos(x.Pos()))
 	return vc.havocVal(to, x.Name(), st.alloc)
+}
+
+// bytesVal: the abstract byte-string value of a []byte slice in state st.
+func (vc *VC) bytesVal(st *State, s string) string {
+	return "(bytesval " + vc.sliceContent(st, s, "Int") + " (soff " + s + ") (slen " + s + "))"
 }
 
 // sliceContent returns the backing array term of a slice value.
